@@ -204,7 +204,7 @@ class Run:
         return not bad
 
     # which generated models the property files of each property import (directly or through the tie files)
-    NEEDS = {'C01': ['formulas'], 'C02': ['formulas', 'pipeline'], 'C03': ['pipeline'], 'C04': ['skeleton'], 'C05': ['blocks'], 'C06': ['blocks'], 'C07': ['formulas'],
+    NEEDS = {'C01': ['formulas'], 'C02': ['formulas', 'pipeline'], 'C03': ['formulas', 'pipeline'], 'C04': ['skeleton'], 'C05': ['blocks'], 'C06': ['blocks'], 'C07': ['formulas'],
              'C08': ['pipeline'], 'C09': ['skeleton'], 'C10': ['skeleton'], 'C11': ['formulas', 'pipeline'], 'C12': ['formulas'], 'C13': ['blocks'],
              'C14': ['blocks', 'formulas', 'pipeline'], 'C15': ['blocks', 'bands'], 'C16': ['cover'], 'C17': ['blocks', 'pipeline'], 'C18': ['skeleton', 'blocks'], 'C19': ['cli_surface'], 'C20': ['blocks']}
 
